@@ -244,6 +244,56 @@ def nat_cases(rnd, n):
     return out
 
 
+def dlast_cases(rnd, n):
+    """two-operand queries with dest as the LAST object of the arena (the TLC scope always puts the source there): dest fills its
+    dmax elements up to the inaccessible page, with or without a terminator, and the scan is led up to that bound - a partial match
+    cut off by dmax, a dest made of accepted characters only, operands equal up to the bound"""
+    out = []
+    fns = [("strstr_s", 1, 1), ("strcasestr_s", 1, 1), ("wcsstr_s", 4, 1), ("strpbrk_s", 1, 1), ("strspn_s", 1, 1), ("strcspn_s", 1, 1),
+           ("strfirstdiff_s", 1, 0), ("strfirstsame_s", 1, 0), ("strlastdiff_s", 1, 0), ("strlastsame_s", 1, 0), ("strprefix_s", 1, 0)]
+    for fn, w, hass in fns:
+        for _ in range(n):
+            hl = rnd.randint(1, 9)
+            alpha = [97, 98] if rnd.random() < 0.7 else [97, 65, 98]
+            hay = [rnd.choice(alpha) for _ in range(hl)]
+            r = rnd.random()
+            if fn in ("strstr_s", "strcasestr_s", "wcsstr_s"):
+                k = rnd.randint(1, min(3, hl))
+                if r < 0.5:
+                    needle = hay[-k:] + [rnd.choice(alpha)]                  # the tail of dest is a proper prefix of the needle
+                    if fn == "strcasestr_s":
+                        needle = [c ^ 32 if rnd.random() < 0.5 else c for c in needle]
+                elif r < 0.75:
+                    j = rnd.randint(0, hl - k)
+                    needle = hay[j:j + k]
+                else:
+                    needle = [rnd.choice(alpha) for _ in range(rnd.randint(1, 4))]
+            elif fn in ("strpbrk_s", "strcspn_s"):
+                needle = [99, 100] if r < 0.6 else [rnd.choice(alpha), 99]  # nothing of it in dest: the scan reaches the bound
+            elif fn == "strspn_s":
+                needle = sorted(set(hay)) if r < 0.6 else [hay[0]]          # all of dest accepted
+            elif fn == "strprefix_s":
+                needle = hay + [rnd.choice(alpha)] if r < 0.4 else hay[:rnd.randint(1, hl)] if r < 0.8 else [rnd.choice(alpha) for _ in range(rnd.randint(1, hl + 1))]
+            else:   # index functions: equal up to the bound, or different / equal only at the last element
+                needle = list(hay)
+                if r < 0.3:
+                    needle[-1] = 99
+                elif r < 0.5:
+                    needle = [99] * (hl - 1) + [hay[-1]]
+                elif r < 0.7:
+                    needle = needle + [rnd.choice(alpha)]
+            dterm = rnd.random() < 0.4
+            dmax = hl + 1 if dterm else hl
+            slen = (len(needle) + rnd.choice([1, 1, 2])) if hass else 0
+            a = blank(1)
+            spos = len(a) + 1
+            a += list(needle) + [0] + blank(3)
+            dpos = len(a) + 1
+            a += list(hay) + ([0] if dterm else [])
+            out.append(case(fn, w, dpos, dmax, spos, slen, a))
+    return out
+
+
 def password_cases(rnd, n):
     """strispassword_s needs strings of 6..31 characters: beyond the TLC arena, seeded here"""
     out = []
@@ -321,7 +371,7 @@ def cases(family, seed, tier):
     if family == "strcopy":
         return copy_cases(rnd, k) + cat_cases(rnd, k)
     if family in ("query2", "query2_small"):
-        return find_cases(rnd, k * 5) + cmp_cases(rnd, k * 5) + nat_cases(rnd, k * 5)
+        return find_cases(rnd, k * 5) + cmp_cases(rnd, k * 5) + nat_cases(rnd, k * 5) + dlast_cases(rnd, k * 4)
     if family == "query1":
         return password_cases(rnd, k * 10)
     if family == "strfld":
